@@ -373,6 +373,14 @@ func NormSweep(run *ev.Run) {
 				if !m.Equal(d.Get("g"), int64(1)) {
 					viol("unsupported-changed", tc.name, fmt.Sprintf("Set(g, %s): unsupported value overwrote the previous value with %s", tc.name, m.Canon(d.Get("g"))))
 				}
+				// through dotted paths: no intermediate object may appear, no scalar on the way may be replaced
+				before := m.Canon(d.ToMap())
+				for _, p := range []string{"p.q", "p.q.r", "g.h", "g.h.i"} {
+					d.Set(p, tc.v)
+				}
+				if after := m.Canon(d.ToMap()); after != before {
+					viol("unsupported-changed-path", tc.name, fmt.Sprintf("Set of the unsupported value %s through dotted paths changed the document: %s -> %s", tc.name, before, after))
+				}
 				return
 			}
 			got := d.Get("f")
